@@ -652,6 +652,25 @@ func normClaims(m map[string]any) map[string]any {
 	return m
 }
 
+// normClaimsJSON turns the float64 numbers of a JSON-decoded claim set back into int64 unix times.
+func normClaimsJSON(m map[string]any) map[string]any {
+	for _, k := range []string{"iat", "nbf", "exp"} {
+		if f, ok := m[k].(float64); ok {
+			m[k] = int64(f)
+		}
+	}
+	if a, ok := m["aud"].([]any); ok {
+		var ss []string
+		for _, x := range a {
+			if s, ok := x.(string); ok {
+				ss = append(ss, s)
+			}
+		}
+		m["aud"] = ss
+	}
+	return m
+}
+
 // authShapes renders Authorization header sets for a token.
 func authShapes(tok string) map[string][]string {
 	return map[string][]string{
@@ -708,6 +727,37 @@ func TestVerifC04(t *testing.T) {
 	twin := startEngine(t, "twin", false, false, keysPath)
 	same := startEngine(t, "same", true, true, keysPath)
 	_ = context.Background
+
+	// --replay: send exactly the recorded request to the engine with authentication and report what ran
+	var rc struct {
+		Raw    string     `json:"raw"`
+		Spec   *tokenSpec `json:"spec"`
+		Header []string   `json:"header"`
+		Target *target    `json:"target"`
+	}
+	if r.ReplayCase(&rc) {
+		raw := strings.ReplaceAll(rc.Raw, "ADDR", auth.internalAddr)
+		want := false
+		if rc.Spec != nil {
+			rc.Spec.Claims = normClaimsJSON(rc.Spec.Claims)
+			tok, genuine := rc.Spec.build2(t, signers)
+			want = acceptable(*rc.Spec, signers, genuine)
+			raw = rc.Target.raw([]string{"Bearer " + tok})
+		}
+		takeHits()
+		code := send(auth.internalAddr, raw)
+		ah := takeHits()
+		fmt.Printf("REPLAY status=%d handlers_ran=%v token_acceptable=%v\n%s\n", code, ah, want, raw)
+		r.Eval("replay")
+		r.Eval("replay2")
+		r.Sample(map[string]any{"replayed": raw, "status": code})
+		for _, h := range ah {
+			if isInternalRoute(h.Route) && !want {
+				r.Violation("C04|replay", "replayed request reached "+h.Route+" without an acceptable token", map[string]any{"raw": rc.Raw})
+			}
+		}
+		return
+	}
 
 	depth := 1
 	if r.Thorough() {
